@@ -770,6 +770,11 @@ def const_skipping_paths(fn, start, must_blocks, stop_blocks, cut_edges=(), limi
         pl = op.get("copy") or op.get("move")
         if pl and not pl["p"]:
             return env.get(pl["l"])
+        if pl and len(pl["p"]) == 1 and isinstance(pl["p"][0], dict) and "f" in pl["p"][0]:
+            # a component of a tuple built from known values: `match (found, cur) { (false, _) => .. }`
+            tv = env.get(pl["l"])
+            if tv and tv[0] == "tuple" and str(pl["p"][0]["f"]).isdigit() and int(pl["p"][0]["f"]) < len(tv[1]):
+                return tv[1][int(pl["p"][0]["f"])]
         return None
 
     def step(env, blk):
@@ -790,8 +795,13 @@ def const_skipping_paths(fn, start, must_blocks, stop_blocks, cut_edges=(), limi
                     v = opval(env, rv["a"])
                 elif rv["k"] == "agg" and rv.get("variant") is not None:
                     v = ("variant", rv["variant"])
+                elif rv["k"] == "agg" and rv.get("agg") == "tuple":
+                    parts = tuple(opval(env, f_) for f_ in rv.get("fields", []))
+                    v = ("tuple", parts) if any(x is not None for x in parts) else None
                 elif rv["k"] == "discr" and not rv["place"]["p"]:
                     v = env.get(rv["place"]["l"])
+                elif rv["k"] == "discr":
+                    v = opval(env, {"copy": rv["place"]})       # the discriminant of a tuple component of known variant
                 elif rv["k"] == "un" and rv.get("op") == "Not":
                     a = opval(env, rv["a"])
                     v = ("bool", not a[1]) if a and a[0] == "bool" else None
